@@ -36,8 +36,14 @@ class Hasher:
 
 
 class Workspace:
-    def __init__(self, ctx):
+    def __init__(self, ctx, on_disk=False):
         self.dir = ctx.fresh("ws")
+        if on_disk:
+            # a disk file system (ext4): a directory's size does not grow with every entry as it does on
+            # tmpfs, so an entry added with the directory's mtime preserved leaves the directory's stat
+            # record unchanged
+            base = os.environ.get("VERIF_DISK_WORK") or "/tmp"
+            self.dir = os.path.join(base, "verif-disk-%d" % os.getpid(), os.path.basename(self.dir))
         os.makedirs(self.dir)
         self.clock = 0
         self.log = os.path.join(self.dir, ".vtlog")
@@ -47,6 +53,12 @@ class Workspace:
 
     def cleanup(self):
         shutil.rmtree(self.dir, ignore_errors=True)
+        parent = os.path.dirname(self.dir)
+        if os.path.basename(parent).startswith("verif-disk-"):
+            try:
+                os.rmdir(parent)
+            except OSError:
+                pass
 
     def _write_clock(self):
         with open(os.path.join(self.dir, ".vtclock"), "w") as f:
@@ -81,6 +93,9 @@ class Workspace:
             with open(p, "r+b") as f:
                 f.write(data)
                 f.truncate()
+            # an in-place rewrite does not touch the containing directory
+            self.stamp(rel)
+            return
         else:
             if os.path.isdir(p) and not os.path.islink(p):
                 shutil.rmtree(p)
@@ -474,7 +489,8 @@ _NAMES = ["a", "b", "c", "d1/e", "d1/f", "d2/g"]
 @st.composite
 def description(draw, max_cmds=7, allow_dirs=False, allow_deps=True, allow_extra_tools=True):
     nsrc = draw(st.integers(1, 4))
-    sources = ["src%d" % i if draw(st.integers(0, 3)) else "sd/src%d" % i for i in range(nsrc)]
+    sources = [draw(st.sampled_from(["src%d", "src%d", "sd/src%d", "sd/sub/src%d"])) % i for i in range(nsrc)]
+    tree_ok = allow_dirs and any(s.startswith("sd/") for s in sources)
     src_text = {}
     # only these sources are ever named by '#include' lines; they are never turned into produced
     # files (docs/buildsystem.rst: discovered dependencies must already be present -- the client is
@@ -499,6 +515,9 @@ def description(draw, max_cmds=7, allow_dirs=False, allow_deps=True, allow_extra
             ins = draw(st.permutations(avail))[:nin]
             if virt_nodes and draw(st.integers(0, 4)) == 0:
                 ins = ins + [draw(st.sampled_from(virt_nodes))]
+            if tree_ok and draw(st.integers(0, 3)) == 0:
+                # a directory-tree input: the command reads everything beneath sd/ (nothing is produced there)
+                ins = [x for x in ins if not x.startswith("sd/")] + ["sd/"]
             nout = draw(st.sampled_from([1, 1, 1, 2, 3]))
             sub = draw(st.sampled_from(["", "", "gen/"]))
             outs = ["%so%d_%d" % (sub, i, j) for j in range(nout)]
